@@ -207,7 +207,10 @@ def _applicable(world, pre, r, do):
             if n in world.envs:
                 if pre.env[n]["measured"]:
                     return False, "envelope-measured"
-            elif n in world.customs or n in world.ces:
+            elif n in world.customs:
+                if world.ce_of.get(n) is not None:
+                    return False, "custom-state-already-in-a-composite"
+            elif n in world.ces:
                 pass
             else:
                 return False, "no-such-object"
@@ -402,8 +405,15 @@ def execute(world, pre, r):
 
 def addressed_of(world, pre, r):
     do = r["do"]
-    if do in ("op", "kraus", "povm", "trace_out", "ce.combine", "ce.reorder", "ce.expand"):
+    if do in ("op", "kraus", "trace_out", "ce.combine", "ce.reorder", "ce.expand"):
         return list(r["on"])
+    if do == "povm":
+        out = list(r["on"])
+        for n in r["on"]:
+            p = world.partner(n)
+            if p and p not in out and _live(pre, p):
+                out.append(p)  # the envelope partner may be measured as a follow-up (DESIGN 11.5)
+        return out
     if do == "measure":
         return specified_set(world, pre, r)
     if do.startswith("env."):
